@@ -264,7 +264,7 @@ def C01(run):
     q = run.quick()
     def plans(L):
         return [["dfs", "3" if q else "4"], ["--dedup", "bytes", "2"], ["rand", "1200" if q else "10000"],
-                ["--faults", "10", "rand", "120" if q else "2500"]]
+                ["--faults", "10", "rand", "120" if q else "2500"], ["texts"]]
     mcs, tot, samples = _load_check(run, "C01", plans, what="decode-anything pipeline", mc_cfgs=("MC_Decoder_L2", "MC_Decoder_live"))
     # nesting far beyond any limit, and the nesting families around the limit: outcome shape, follow-up operations, sanitizers, watchdog only
     lib = build_lib(run, "dbg")
@@ -316,11 +316,20 @@ def _c01_sweeps(run):
 def C02(run):
     q = run.quick()
     def plans(L):
-        return [["--noops", "dfs", "4" if q else "5"], ["--noops", "dfs", "2", "all"], ["--noops", "rand", "1500" if q else "12000"]]
+        return [["--noops", "dfs", "4" if q else "5"], ["--noops", "dfs", "2", "all"], ["--noops", "rand", "1500" if q else "12000"],
+                ["--noops", "texts"]] + ([] if q else [["E2E", "--noops", "wide", "1"]])
     # the default build and one with a small nesting limit (so that nesting exactly at and just above the limit is enumerated)
     mcs, tot, samples = _load_check(run, "C02", lambda L: plans(L) if L is None else [["--noops", "dfs", "4" if q else "5"], ["--noops", "nest"]], Ls=(None, 2),
                                     what="cbor_load acceptance and tree", mc_cfgs=("MC_Decoder_L1", "MC_Decoder_L2", "MC_Decoder_L3"))
-    _load_evidence(run, mcs, tot, samples, DISTINCT_RULE + "inputs: every token string the decoder keeps reading up to %s heads (16 head classes + huge counts, argument widths cycled), every pair of ALL concrete head variants, seeded random items + single-edit neighbours; default limit and L=2" % ("4" if q else "5"), LOAD_ASSUME)
+    # flat items with member counts around every power of two up to 2^16 (thorough 2^20): summary lines judged by Trace_Wide
+    lib = build_lib(run, "o2asan")
+    exe = build_harness(run, lib, "h_load", LOAD_SRC)
+    wide = run.path("wide.ndjson")
+    _record_simple(run, exe, ["widesum", "0" if q else "1"], wide, "wide flat items")
+    wres = tracecheck(run, "Trace_Wide", wide, boundary=None)
+    _report_rejects(run, wres, "cbor_load of a flat item with many members", lambda ln, r: "wide kind=%s count=%s" % (ln.get("kind"), ln.get("count")))
+    tot["lines"] += wres["lines"]
+    _load_evidence(run, mcs, tot, samples, DISTINCT_RULE + "inputs: every token string the decoder keeps reading up to %s heads (16 head classes + huge counts, argument widths cycled), every pair of ALL concrete head variants, seeded random items + single-edit neighbours; text strings with ASCII runs of every length 0..300 alone / behind / between multi-byte scalars; flat arrays, maps and chunked strings of 23..65537 (thorough ..2^20+1) members (summary lines, Trace_Wide); default limit and L=2" % ("4" if q else "5"), LOAD_ASSUME)
 
 
 def C05(run):
@@ -336,8 +345,11 @@ def C05(run):
 
 def C19(run):
     q = run.quick()
-    Ls = (1, 2, 3, None) if q else (1, 2, 3, 8, 64, None)
+    # 256 / 65536: the values at which a counter held in 8 / 16 bits would wrap
+    Ls = (1, 2, 3, 256, None) if q else (1, 2, 3, 8, 64, 255, 256, 257, 65536, None)
     def plans(L):
+        if L == 65536:
+            return [["E2E", "--noops", "nest", "0x01"]]
         if L is not None and L <= 8:
             p = [["--noops", "nest"]]
             if L <= 3:
